@@ -67,6 +67,8 @@ def run(snap, tier, seed, t0, replay):
                 params["third_basetype"] = True
                 params["leaf_per_basetype"] = True
             params["explicit_root"] = (k % 6 != 5)
+            if k % 8 == 7:
+                params["dotdot_root"] = True       # a root folder spelled with '..' is a root like any other
             if k % 8 == 6:
                 # a closed vocabulary with 'x' and 'x_big' under the '_' separator (third-party limit, listed as known finding)
                 params["prefix_vocab"], params["with_assettype"], params["sep"] = True, True, "_"
@@ -91,6 +93,7 @@ def run(snap, tier, seed, t0, replay):
               "configurations whose secondary path configurations derive from the main module": (sum(1 for p in params_list if p.get("derived_configs") and p.get("third_config_own_mapping")), 1 if nconf >= 6 else 0),
               "configurations with a basetype that names its own leaf key": (sum(1 for p in params_list if p.get("third_basetype") and p.get("leaf_per_basetype")), 1 if nconf >= 6 else 0),
               "configurations with a vocabulary value that extends another by the separator": (sum(1 for p in params_list if p.get("prefix_vocab")), 1 if nconf >= 8 else 0),
+              "configurations whose root folder is spelled with '..'": (sum(1 for p in params_list if p.get("dotdot_root")), 1 if nconf >= 8 else 0),
               "partial mapping table configurations": (sum(1 for p in params_list if p["mapping_style"] == "partial"), 1 if nconf >= 6 else 0)}
     for sub in SUBS:
         floors["evaluations of %s" % sub] = (c.get("evals:" + sub, 0), nconf * (100 if sub != "order" else 2))
